@@ -74,7 +74,20 @@ def _worker(space, run_one, shard, nshards, resume, journal_path, out_path, setu
             if idx % nshards != shard or idx < resume:
                 continue
             mm[0:8] = struct.pack("<q", idx)
-            r = run_one(inst)
+            try:
+                r = run_one(inst)
+            except Exception as e:  # noqa: the code under test may raise anything; report, do not die
+                tb = traceback.extract_tb(e.__traceback__)
+                where = "; ".join(f"{os.path.basename(f.filename)}:{f.lineno} {f.name}" for f in tb[-4:])
+                r = Result(
+                    violations=[
+                        {
+                            "clause": "exception",
+                            "signature": f"exception:{type(e).__name__}",
+                            "detail": f"{type(e).__name__}: {e} @ {where}",
+                        }
+                    ]
+                )
             st.evaluations += r.n
             if r.nontrivial:
                 st.nontrivial += int(r.nontrivial)
